@@ -75,6 +75,19 @@ pub fn run_c01(ctx: &mut Ctx, replay: Option<&[String]>) {
             // non-trivial: the decoder actually iterated (input signs are not already a codeword)
             let nontrivial = !res[0].ends_with(":0");
             ctx.emit(&input, &res.join(" "), nontrivial, &tags);
+            // the same frame under an iteration limit that does not fit in 32 (or 31, 16, 8) bits: a frame that decodes after k >= 1 iterations
+            // under a small limit must decode identically — the limit must not pass through a narrower integer type anywhere
+            if res[0].starts_with("S:") && nontrivial {
+                let k_it: usize = res[0].rsplit(':').next().and_then(|x| x.parse().ok()).unwrap_or(1);
+                let big = *rng.pick(&[1usize << 32, (1usize << 32) + k_it - 1, 1usize << 31, (1usize << 31) + 1, 65536, 65536 + k_it - 1, 256, usize::MAX,
+                    (1usize << 40) + (k_it - 1), u32::MAX as usize]);
+                let calls2 = vec![(big, calls[0].1.clone())];
+                let mut d2 = imp.build_decoder(h.clone());
+                let res2 = run_history(&mut d2, &calls2);
+                let mut tags2 = vec![fam, "limit-256-or-more"];
+                outcome_tags(&res2, &mut tags2);
+                ctx.emit(&format!("c01 {} {} {}", imp, sm(&h), calls_str(&calls2)), &res2.join(" "), true, &tags2);
+            }
         }
     }
     // very wide matrices (more than 2^16 columns, checks that join a low and a high column): column indices must not pass through a
@@ -158,6 +171,39 @@ pub fn run_c10(ctx: &mut Ctx, replay: Option<&[String]>) {
             let input = format!("c10 {} {} {}", imp, sm(&h), calls_str(&calls));
             // non-trivial: the history mixes successes and failures (a stale buffer can only show then)
             ctx.emit(&input, &format!("{} | {}", a.join(" "), b.join(" ")), kinds >= 2, &tags);
+        }
+    }
+    // long histories: one frame that iterates, then a run of 254..257 / 510..513 (thorough: also 65534..65537) frames that fail under limit 0
+    // (the decoder object is entered and left without a single iteration), then one more frame that iterates — per-object counters of
+    // 8 or 16 bits (frame stamps, generation numbers, lazily reset buffers) wrap exactly there
+    for (i, imp) in all_impls().into_iter().enumerate() {
+        let mut gaps: Vec<usize> = vec![*rng.pick(&[255usize, 255, 256, 254, 257]), *rng.pick(&[511usize, 510, 512, 513, 767])];
+        if ctx.thorough && i % 9 == 1 { gaps.push(*rng.pick(&[65535usize, 65536, 65534])); }
+        for gap in gaps {
+            let (h, fam) = gen_matrix(&mut rng, if gap > 1000 { 8 } else { 14 });
+            let mut tags = vec![fam, if gap > 1000 { "history-with-about-65536-zero-iteration-frames" } else { "history-with-255-or-more-zero-iteration-frames" }];
+            // first and last frames: fresh random LLR vectors with limits >= 1; middle: ONE failing vector repeated under limit 0
+            // (each drawn until a fresh decoder really iterates on it / really fails under limit 0, at most 30 draws)
+            let draw = |rng: &mut Rng, limit: usize, tags: &mut Vec<&'static str>| -> (usize, Vec<f64>) {
+                let mut c = (limit, Vec::new());
+                for _ in 0..30 {
+                    c = (limit, gen_calls(rng, &h, 1, tags).remove(0).1);
+                    let mut f = imp.build_decoder(h.clone());
+                    let r = run_history(&mut f, std::slice::from_ref(&c));
+                    if !r[0].ends_with(":0") || (limit == 0 && r[0].starts_with("F:")) { break; }
+                }
+                c
+            };
+            let (l1, l2) = ([1usize, 2, 3, 5][rng.below(4)], [1usize, 2, 3][rng.below(3)]);
+            let first = vec![draw(&mut rng, l1, &mut tags)];
+            let last = vec![draw(&mut rng, l2, &mut tags), draw(&mut rng, 5, &mut tags)];
+            let mid = draw(&mut rng, 0, &mut tags).1;
+            let mut calls = first;
+            for _ in 0..gap { calls.push((0, mid.clone())); }
+            calls.extend(last);
+            let (a, b) = do_case(imp, &h, &calls);
+            let kinds = a.iter().map(|r| &r[..1]).collect::<std::collections::HashSet<_>>().len();
+            ctx.emit(&format!("c10 {} {} {}", imp, sm(&h), calls_str(&calls)), &format!("{} | {}", a.join(" "), b.join(" ")), kinds >= 2, &tags);
         }
     }
 }
